@@ -219,3 +219,481 @@ Proof.
     + intros u v x _ _ Hu Hv. apply in_map_iff in Hu. destruct Hu as (c&<-&Hu). apply in_map_iff in Hv. destruct Hv as (c'&E&Hv).
       injection E as ->. apply HR in Hu. apply HR in Hv. congruence.
 Qed.
+
+(* ---------- locks, for every configuration: who holds a channel's write lock is the only one to change the channel ---------- *)
+Definition pc_lt3 (n : N) (p : pc) : Prop :=
+  match p with
+  | PJoinWait _ o _ _ | PJoinNotify _ o _ _ _ | PLeaveWait _ o _ _ | PLeaveN1 _ o _ _ _ | PLeaveN2 _ o _ _
+  | PSetAclWait _ o _ _ _ _ => o < n
+  | _ => True
+  end.
+
+(* objects not yet handed out are empty; the map names only objects already handed out *)
+Definition Kinv (g : gst) : Prop :=
+  (forall o, next_oid g <= o -> members (objs g o) = []) /\ (forall ch o, cmap g ch = Some o -> o < next_oid g).
+
+Definition untouched (g g' : gst) (o : oid) : Prop := objs g' o = objs g o /\ wl g' o = wl g o.
+(* a step function working on the channel object o *)
+Definition eff (g g' : gst) (o : oid) : Prop :=
+  (forall o', o' <> o -> untouched g g' o') /\ next_oid g' = next_oid g /\
+  (forall ch x, cmap g' ch = Some x -> cmap g ch = Some x).
+Definition post (g' : gst) (t : tid) (o : oid) (p' : pc) : Prop :=
+  match p' with
+  | PJoinNotify _ o' _ n _ => o' = o /\ wl g' o = Some t /\ In n (members (objs g' o))
+  | PLeaveN1 _ o' _ _ _ | PLeaveN2 _ o' _ _ => o' = o /\ wl g' o = Some t
+  | PDone => True
+  | _ => False
+  end.
+
+Lemma In_add_self n (l : list N) : In n (add n l).
+Proof. unfold add. destruct (mem n l) eqn:E; [apply mem_In; exact E|apply in_or_app; right; left; reflexivity]. Qed.
+
+Lemma lock_free_None g o : lock_free g o = true -> wl g o = None.
+Proof. unfold lock_free. destruct (wl g o); [discriminate|reflexivity]. Qed.
+
+Ltac post_tac :=
+  cbn [post]; red_g;
+  first [ exact I
+        | split; [reflexivity|split; [apply upd_same|rewrite ?upd_same; red_g; apply In_add_self]]
+        | split; [reflexivity|apply upd_same] ].
+Ltac eleaf :=
+  rest_split; unfold eff, untouched; unf_set; red_g;
+  (split; [split; [let o' := fresh "o" in let Hne := fresh "Hne" in
+                   intros o' Hne; rewrite ?upd_other by exact Hne; split; reflexivity
+                  | split; [reflexivity | cm_tac]]
+          | post_tac]).
+
+Section Locks.
+  Variable cf : ccfg.
+  Variables (t : tid) (tc : option conn) (me : user).
+
+  Lemma e_join_finish g ch o cr n id ok :
+    eff g (fst (fst (join_finish cf tc g ch o cr n id ok))) o /\ post (fst (fst (join_finish cf tc g ch o cr n id ok))) t o (snd (fst (join_finish cf tc g ch o cr n id ok))).
+  Proof. unf_steps. repeat hd1; eleaf. Qed.
+
+  Lemma e_join_locked g ch o cr ob id :
+    eff g (fst (fst (join_locked cf t tc me g ch o cr ob id))) o /\ post (fst (fst (join_locked cf t tc me g ch o cr ob id))) t o (snd (fst (join_locked cf t tc me g ch o cr ob id))).
+  Proof. unf_steps. repeat hd1; eleaf. Qed.
+
+  Lemma e_leave_after_n2 g ch o id ok1 ok2 :
+    eff g (fst (fst (leave_after_n2 tc g ch o id ok1 ok2))) o /\ post (fst (fst (leave_after_n2 tc g ch o id ok1 ok2))) t o (snd (fst (leave_after_n2 tc g ch o id ok1 ok2))).
+  Proof. unf_steps. repeat hd1; eleaf. Qed.
+
+  Lemma e_leave_after_n1 g ch o n w id ok1 hint :
+    eff g (fst (fst (leave_after_n1 cf t tc g ch o n w id ok1 hint))) o /\ post (fst (fst (leave_after_n1 cf t tc g ch o n w id ok1 hint))) t o (snd (fst (leave_after_n1 cf t tc g ch o n w id ok1 hint))).
+  Proof. unf_steps. repeat hd1; eleaf. Qed.
+
+  Lemma e_leave_locked g ch o ob id hint :
+    eff g (fst (fst (leave_locked cf t tc me g ch o ob id hint))) o /\ post (fst (fst (leave_locked cf t tc me g ch o ob id hint))) t o (snd (fst (leave_locked cf t tc me g ch o ob id hint))).
+  Proof. unf_steps. repeat hd1; eleaf. Qed.
+
+  Lemma e_set_acl_locked g o ty adding us id :
+    eff g (fst (fst (set_acl_locked cf tc me g o ty adding us id))) o /\ post (fst (fst (set_acl_locked cf tc me g o ty adding us id))) t o (snd (fst (set_acl_locked cf tc me g o ty adding us id))).
+  Proof. unf_steps. repeat hd1; eleaf. Qed.
+End Locks.
+
+Definition seg_post (t : tid) (g g' : gst) (p' : pc) : Prop :=
+  Kinv g' /\ next_oid g <= next_oid g' /\ pc_lt3 (next_oid g') p' /\
+  (forall o', o' < next_oid g -> wl g o' <> None -> wl g o' <> Some t -> untouched g g' o') /\
+  (forall o, holds p' = Some o -> wl g' o = Some t) /\
+  (forall ch o cr n id, p' = PJoinNotify ch o cr n id -> In n (members (objs g' o))).
+
+Lemma from_eff t g g' o p' :
+  Kinv g -> o < next_oid g -> (wl g o = None \/ wl g o = Some t) -> eff g g' o /\ post g' t o p' -> seg_post t g g' p'.
+Proof.
+  intros (K1&K2) Ho HT ((E1&E2&E3)&Hp). unfold seg_post, Kinv. rewrite E2. repeat split.
+  - intros o' Ho'. assert (o' <> o) by (unfold oid in *; lia). destruct (E1 o' H) as [-> _]. apply K1. exact Ho'.
+  - intros ch x Hx. apply K2 with ch. apply E3. exact Hx.
+  - lia.
+  - destruct p'; cbn [post pc_lt3] in *; try exact I; try contradiction; destruct Hp as [-> _]; exact Ho.
+  - apply E1. intros ->. destruct HT; contradiction.
+  - apply E1. intros ->. destruct HT; contradiction.
+  - intros o0 Hh. destruct p'; cbn [post holds] in *; try discriminate; injection Hh as <-; destruct Hp as (->&Hw&_) || destruct Hp as (->&Hw); exact Hw.
+  - intros ch o0 cr n id ->. cbn [post] in Hp. destruct Hp as (->&_&Hn). exact Hn.
+Qed.
+
+Lemma stay t g p' : Kinv g -> pc_lt3 (next_oid g) p' -> holds p' = None -> seg_post t g g p'.
+Proof.
+  intros K Hp Hh. unfold seg_post. split; [exact K|]. split; [lia|]. split; [exact Hp|]. split; [intros; split; reflexivity|].
+  split; [intros o H; rewrite Hh in H; discriminate H|]. intros ch o cr n id ->. discriminate Hh.
+Qed.
+
+Section Locks2.
+  Variable cf : ccfg.
+  Variables (t : tid) (tc : option conn) (me : user).
+
+  Lemma seg_locks g p ok hint :
+    Kinv g -> pc_lt3 (next_oid g) p -> (forall o, holds p = Some o -> wl g o = Some t) ->
+    seg_post t g (fst (fst (seg cf t tc me g p ok hint))) (snd (fst (seg cf t tc me g p ok hint))).
+  Proof.
+    intros K Hp Hh. pose proof K as (K1&K2).
+    destruct p as [[]| | | | | | | | | | |]; cbn [seg pc_lt3 holds] in *.
+    - (* JOIN *) unfold join_start. destruct (cmap g ch) as [o|] eqn:Hc.
+      + destruct (lock_free g o) eqn:Hl.
+        * eapply from_eff; [exact K|apply K2 with ch; exact Hc|left; apply lock_free_None; exact Hl|apply e_join_locked].
+        * apply stay; [exact K|apply K2 with ch; exact Hc|reflexivity].
+      + cbv zeta. match goal with |- context [join_locked cf t tc me ?g1 _ _ _ _ _] => set (G1 := g1) end.
+        destruct (e_join_locked cf t tc me G1 ch (next_oid g) true ob id) as ((E1&E2&E3)&Hpo).
+        set (r := join_locked cf t tc me G1 ch (next_oid g) true ob id) in *.
+        assert (Hn1 : next_oid G1 = next_oid g + 1) by reflexivity.
+        assert (Ho1 : forall o', o' <> next_oid g -> objs G1 o' = objs g o' /\ wl G1 o' = wl g o').
+        { intros o' Hne. subst G1. unf_set. red_g. rewrite upd_other by exact Hne. split; reflexivity. }
+        unfold seg_post, Kinv. rewrite E2, Hn1. repeat split.
+        * intros o' Ho'. assert (Hne : o' <> next_oid g) by (unfold oid in *; lia).
+          destruct (E1 o' Hne) as [-> _]. destruct (Ho1 o' Hne) as [-> _]. apply K1. unfold oid in *; lia.
+        * intros ch' x Hx. apply E3 in Hx. subst G1. unf_set. red_g. unfold upd in Hx. destruct (ch' =? ch).
+          -- injection Hx as <-. unfold oid in *; lia.
+          -- apply K2 in Hx. unfold oid in *; lia.
+        * unfold oid in *; lia.
+        * destruct (snd (fst r)); cbn [post pc_lt3] in *; try exact I; try contradiction; destruct Hpo as [-> _]; unfold oid in *; lia.
+        * assert (Hne : o' <> next_oid g) by (unfold oid in *; lia). destruct (E1 o' Hne) as [-> _]. apply Ho1. exact Hne.
+        * assert (Hne : o' <> next_oid g) by (unfold oid in *; lia). destruct (E1 o' Hne) as [_ ->]. apply Ho1. exact Hne.
+        * intros o0 Hh0. destruct (snd (fst r)); cbn [post holds] in *; try discriminate; injection Hh0 as <-; destruct Hpo as (->&Hw&_) || destruct Hpo as (->&Hw); exact Hw.
+        * intros ch0 o0 cr n id0 E. rewrite E in Hpo. cbn [post] in Hpo. destruct Hpo as (->&_&Hn). exact Hn.
+    - (* LEAVE *) unfold leave_start. destruct (cmap g ch) as [o|] eqn:Hc; [|apply stay; [exact K|exact I|reflexivity]].
+      destruct (lock_free g o) eqn:Hl.
+      + eapply from_eff; [exact K|apply K2 with ch; exact Hc|left; apply lock_free_None; exact Hl|apply e_leave_locked].
+      + apply stay; [exact K|apply K2 with ch; exact Hc|reflexivity].
+    - unfold bcast_lookup, bcast_read. cbv zeta. repeat hd1; (apply stay; [exact K|exact I|reflexivity]).
+    - unfold members_read. cbv zeta. repeat hd1; (apply stay; [exact K|exact I|reflexivity]).
+    - apply stay; [exact K|exact I|reflexivity].
+    - destruct (cmap g ch) as [o|] eqn:Hc; [|apply stay; [exact K|exact I|reflexivity]].
+      destruct (lock_free g o) eqn:Hl.
+      + eapply from_eff; [exact K|apply K2 with ch; exact Hc|left; apply lock_free_None; exact Hl|apply e_set_acl_locked].
+      + apply stay; [exact K|apply K2 with ch; exact Hc|reflexivity].
+    - unfold get_acl_read. cbv zeta. repeat hd1; (apply stay; [exact K|exact I|reflexivity]).
+    - destruct (lock_free g o) eqn:Hl; [|apply stay; [exact K|exact Hp|reflexivity]].
+      eapply from_eff; [exact K|exact Hp|left; apply lock_free_None; exact Hl|apply e_join_locked].
+    - eapply from_eff; [exact K|exact Hp|right; apply Hh; reflexivity|apply e_join_finish].
+    - destruct (lock_free g o) eqn:Hl; [|apply stay; [exact K|exact Hp|reflexivity]].
+      eapply from_eff; [exact K|exact Hp|left; apply lock_free_None; exact Hl|apply e_leave_locked].
+    - eapply from_eff; [exact K|exact Hp|right; apply Hh; reflexivity|apply e_leave_after_n1].
+    - eapply from_eff; [exact K|exact Hp|right; apply Hh; reflexivity|apply e_leave_after_n2].
+    - unfold bcast_lookup, bcast_read. cbv zeta. repeat hd1; (apply stay; [exact K|exact I|reflexivity]).
+    - unfold bcast_read. cbv zeta. repeat hd1; (apply stay; [exact K|exact I|reflexivity]).
+    - unfold members_read. cbv zeta. repeat hd1; (apply stay; [exact K|exact I|reflexivity]).
+    - destruct (lock_free g o) eqn:Hl; [|apply stay; [exact K|exact Hp|reflexivity]].
+      eapply from_eff; [exact K|exact Hp|left; apply lock_free_None; exact Hl|apply e_set_acl_locked].
+    - unfold get_acl_read. cbv zeta. repeat hd1; (apply stay; [exact K|exact I|reflexivity]).
+    - apply stay; [exact K|exact I|reflexivity].
+  Qed.
+End Locks2.
+
+(* ---------- the invariant of the task list ---------- *)
+Definition tk_ok (g : gst) (t : tid) (p : pc) : Prop :=
+  pc_lt3 (next_oid g) p /\ (forall o, holds p = Some o -> wl g o = Some t) /\
+  (forall ch o cr n id, p = PJoinNotify ch o cr n id -> In n (members (objs g o))).
+Definition LInv (s : cstate) : Prop :=
+  Kinv (cg s) /\ NoDup (map fst (tasks s)) /\ (forall t k, In (t, k) (tasks s) -> t < next_tid s) /\
+  (forall t k, In (t, k) (tasks s) -> tk_ok (cg s) t (t_pc k)).
+
+Lemma pc_lt3_mono n m p : n <= m -> pc_lt3 n p -> pc_lt3 m p.
+Proof. destruct p; cbn [pc_lt3]; auto; unfold oid in *; lia. Qed.
+Lemma holds_lt n p o : pc_lt3 n p -> holds p = Some o -> o < n.
+Proof. destruct p; cbn [pc_lt3 holds]; try discriminate; intros H E; injection E as <-; exact H. Qed.
+
+Lemma tk_frame g g' t p :
+  tk_ok g t p -> next_oid g <= next_oid g' -> (forall o, o < next_oid g -> wl g o = Some t -> untouched g g' o) -> tk_ok g' t p.
+Proof.
+  intros (H1&H2&H3) Hn Hu. split; [eapply pc_lt3_mono; eassumption|]. split.
+  - intros o Hh. destruct (Hu o (holds_lt _ _ _ H1 Hh) (H2 o Hh)) as [_ ->]. apply H2. exact Hh.
+  - intros ch o cr n id E. assert (Hh : holds p = Some o) by (rewrite E; reflexivity).
+    destruct (Hu o (holds_lt _ _ _ H1 Hh) (H2 o Hh)) as [-> _]. eapply H3. exact E.
+Qed.
+
+Lemma Kinv_same g g' : objs g' = objs g -> next_oid g' = next_oid g -> cmap g' = cmap g -> Kinv g -> Kinv g'.
+Proof. intros Ho Hn Hc H. unfold Kinv. rewrite Ho, Hn, Hc. exact H. Qed.
+
+Lemma In_fst {A B} (a : A) (b : B) l : In (a, b) l -> In a (map fst l).
+Proof. intro H. apply in_map_iff. exists (a, b). auto. Qed.
+
+Lemma nd_unique (l : list (tid * task)) t k k' : NoDup (map fst l) -> In (t, k) l -> In (t, k') l -> k = k'.
+Proof.
+  induction l as [|[a w] r IH]; cbn [map fst In]; [intros _ []|]. intros Hn H1 H2. inversion Hn as [|? ? Ha Hr]; subst.
+  destruct H1 as [H1|H1]; destruct H2 as [H2|H2].
+  - congruence.
+  - injection H1 as -> ->. exfalso. apply Ha. eapply In_fst. exact H2.
+  - injection H2 as -> ->. exfalso. apply Ha. eapply In_fst. exact H1.
+  - apply IH; assumption.
+Qed.
+
+Lemma map_fst_tset t v l : map fst (tset t v l) = map fst l.
+Proof. induction l as [|[a w] r IH]; cbn [tset map fst]; [reflexivity|]. destruct (t =? a); cbn [map fst]; [reflexivity|]. rewrite IH. reflexivity. Qed.
+
+Lemma In_tset_nd t v l t' k' :
+  NoDup (map fst l) -> In (t', k') (tset t v l) -> (t' = t /\ k' = v) \/ (In (t', k') l /\ t' <> t).
+Proof.
+  induction l as [|[a w] r IH]; cbn [tset map fst]; [intros _ []|]. intros Hn. inversion Hn as [|? ? Ha Hr]; subst.
+  destruct (N.eqb_spec t a) as [->|Hne]; cbn [In].
+  - intros [H|H]; [injection H as <- <-; left; auto|]. right. split; [right; exact H|]. intros ->. apply Ha. eapply In_fst. exact H.
+  - intros [H|H]; [injection H as <- <-; right; split; [left; reflexivity|congruence]|].
+    destruct (IH Hr H) as [H1|[H1 H2]]; [left; exact H1|right; split; [right; exact H1|exact H2]].
+Qed.
+
+Lemma In_tremove_nd t l (x : tid * task) : In x (tremove t l) <-> In x l /\ fst x <> t.
+Proof.
+  unfold tremove. rewrite filter_In. split; intros [H1 H2]; split; auto.
+  - apply negb_true_iff in H2. apply N.eqb_neq. exact H2.
+  - apply negb_true_iff. apply N.eqb_neq. exact H2.
+Qed.
+
+Lemma nd_map_filter {A B} (f : A -> B) (q : A -> bool) l : NoDup (map f l) -> NoDup (map f (filter q l)).
+Proof.
+  induction l as [|a r IH]; cbn [map filter]; [auto|]. intro H. inversion H as [|? ? Ha Hr]; subst.
+  destruct (q a); cbn [map]; [|apply IH; exact Hr]. constructor; [|apply IH; exact Hr].
+  intro X. apply Ha. apply in_map_iff in X. destruct X as (y&E&Hy). apply filter_In in Hy. apply in_map_iff. exists y. split; [exact E|apply Hy].
+Qed.
+
+Lemma settle_In_nd t k p hint l t' k' :
+  NoDup (map fst l) -> In (t', k') (settle t k p hint l) ->
+  (In (t', k') l /\ t' <> t) \/ (t' = t /\ (t_pc k' = p \/ exists ch, t_pc k' = PStart (RLeave ch None 0))).
+Proof.
+  intro Hn.
+  assert (Hs : forall p', In (t', k') (tset t (with_pc k p') l) ->
+               (In (t', k') l /\ t' <> t) \/ (t' = t /\ (t_pc k' = p' \/ exists ch, t_pc k' = PStart (RLeave ch None 0)))).
+  { intros p' H. apply In_tset_nd in H; [|exact Hn]. destruct H as [[-> ->]|H]; [right; split; [reflexivity|left; reflexivity]|left; exact H]. }
+  unfold settle. destruct p; try apply Hs.
+  assert (Hr : In (t', k') (tremove t l) -> In (t', k') l /\ t' <> t) by (intro H; apply In_tremove_nd in H; exact H).
+  destruct (t_conn k); [intro H; left; apply Hr; exact H|]. destruct (t_rest k) as [|c0 r0]; [intro H; left; apply Hr; exact H|].
+  destruct (pick_next hint (c0 :: r0)) as [ch r]. intro H. apply In_tset_nd in H; [|exact Hn].
+  destruct H as [[-> ->]|H]; [right; split; [reflexivity|right; exists ch; reflexivity]|left; exact H].
+Qed.
+
+Lemma settle_fst_nd t k p hint l : NoDup (map fst l) -> NoDup (map fst (settle t k p hint l)).
+Proof.
+  intro Hn. assert (Hr : NoDup (map fst (tremove t l))) by (unfold tremove; apply nd_map_filter; exact Hn).
+  unfold settle. destruct p; try (rewrite map_fst_tset; exact Hn).
+  destruct (t_conn k); [exact Hr|]. destruct (t_rest k); [exact Hr|]. destruct (pick_next hint _). rewrite map_fst_tset. exact Hn.
+Qed.
+
+Lemma release_wl g k o : holds (t_pc k) <> Some o -> wl (release_of g k) o = wl g o.
+Proof.
+  unfold release_of. destruct (holds (t_pc k)) as [o'|]; [|reflexivity]. intro H. unfold unlock, set_wl. cbn [wl].
+  apply upd_other. congruence.
+Qed.
+
+Lemma fold_wl c o (l : list (tid * task)) : forall g,
+  (forall e, In e l -> of_conn c (snd e) = true -> holds (t_pc (snd e)) <> Some o) ->
+  wl (fold_left (fun acc e => if of_conn c (snd e) then release_of acc (snd e) else acc) l g) o = wl g o.
+Proof.
+  induction l as [|e r IH]; intros g H; cbn [fold_left]; [reflexivity|]. rewrite IH.
+  - destruct (of_conn c (snd e)) eqn:E; [|reflexivity]. apply release_wl. apply H; [left; reflexivity|exact E].
+  - intros e' He'. apply H. right. exact He'.
+Qed.
+
+Lemma nd_snoc (l : list (tid * task)) n v : NoDup (map fst l) -> (forall t k, In (t, k) l -> t < n) -> NoDup (map fst (l ++ [(n, v)])).
+Proof.
+  intros Hn Hl. rewrite map_app. cbn [map fst]. apply nodup_app; [exact Hn|constructor; [intros []|constructor]|].
+  intros x Hx [<-|[]]. apply in_map_iff in Hx. destruct Hx as ([a w]&E&Hy). cbn [fst] in E. subst a. apply Hl in Hy. lia.
+Qed.
+
+Lemma linv_cstep cf s e : LInv s -> LInv (fst (cstep cf s e)).
+Proof.
+  intros HL. pose proof HL as (K&Hn&Ht&Hk). unfold LInv in *.
+  destruct e as [c u ex|c r|t ok hint|c hint|t|ts pl]; unfold cstep; cbv zeta; [ | | | | |exact HL].
+  - destruct (cuser (cg s) c); [exact HL|]. destruct (ex && _); [exact HL|]. cbn [fst cg tasks next_tid].
+    split; [eapply Kinv_same; [| | |exact K]; reflexivity|]. split; [exact Hn|]. split; [exact Ht|exact Hk].
+  - destruct (cuser (cg s) c); [|exact HL]. cbn [fst cg tasks next_tid]. split; [exact K|].
+    split; [apply nd_snoc; assumption|]. split.
+    + intros t k H. apply in_app_or in H. destruct H as [H|[H|[]]]; [apply Ht in H; lia|injection H as <- _; lia].
+    + intros t k H. apply in_app_or in H. destruct H as [H|[H|[]]]; [apply Hk; exact H|]. injection H as <- <-. cbn [t_pc].
+      split; [exact I|]. split; [intros o X; discriminate X|intros ? ? ? ? ? X; discriminate X].
+  - destruct (tlookup t (tasks s)) as [k|] eqn:Hl; [|exact HL]. apply tlookup_In in Hl.
+    destruct (Hk t k Hl) as (P1&P2&P3).
+    pose proof (seg_locks cf t (t_conn k) (t_me k) (cg s) (t_pc k) ok hint K P1 P2) as Hs.
+    destruct (seg cf t (t_conn k) (t_me k) (cg s) (t_pc k) ok hint) as [[g' p] os]. cbn [fst snd cg tasks next_tid] in *.
+    destruct Hs as (S1&S2&S3&S4&S5&S6). split; [exact S1|]. split; [apply settle_fst_nd; exact Hn|]. split.
+    + intros t' k' H. apply settle_In_nd in H; [|exact Hn]. destruct H as [[H _]|[-> _]]; [apply Ht with k'; exact H|apply Ht with k; exact Hl].
+    + intros t' k' H. apply settle_In_nd in H; [|exact Hn]. destruct H as [[H Hne]|[-> [H|[ch H]]]].
+      * eapply tk_frame; [apply Hk; exact H|exact S2|]. intros o Ho Hw. apply S4; [exact Ho|rewrite Hw; discriminate|rewrite Hw; congruence].
+      * rewrite H. split; [exact S3|]. split; [exact S5|exact S6].
+      * rewrite H. split; [exact I|]. split; [intros o X; discriminate X|intros ? ? ? ? ? X; discriminate X].
+  - destruct (cuser (cg s) c) as [u|]; [|exact HL].
+    destruct (fold_frame c (tasks s) (cg s)) as (Ho&_&_&_). destruct (fold_frame2 c (tasks s) (cg s)) as (Hno&Hc).
+    pose proof (fun o => fold_wl c o (tasks s) (cg s)) as Hw.
+    match type of Ho with objs ?x = _ => set (g1 := x) in * end.
+    set (ts := filter (fun e => negb (of_conn c (snd e))) (tasks s)).
+    assert (Hts : forall t k, In (t, k) ts -> In (t, k) (tasks s) /\ of_conn c k = false).
+    { intros t k H. apply filter_In in H. destruct H as [H1 H2]. split; [exact H1|]. apply negb_true_iff in H2. exact H2. }
+    assert (Hnd : NoDup (map fst ts)) by (apply nd_map_filter; exact Hn).
+    assert (Hfr : forall g2, objs g2 = objs g1 -> next_oid g2 = next_oid g1 -> wl g2 = wl g1 ->
+                  forall t k, In (t, k) ts -> tk_ok g2 t (t_pc k)).
+    { intros g2 E1 E2 E3 t k H. destruct (Hts t k H) as [H1 H2]. eapply tk_frame; [apply Hk; exact H1|rewrite E2, Hno; lia|].
+      intros o _ Hwo. split; [rewrite E1, Ho; reflexivity|]. rewrite E3. apply Hw. intros [t'' k''] He Hoc Hh. cbn [snd] in *.
+      destruct (Hk t'' k'' He) as (_&Q2&_). rewrite (Q2 o Hh) in Hwo. injection Hwo as ->.
+      rewrite (nd_unique _ _ _ _ Hn He H1) in Hoc. congruence. }
+    assert (Hlt : forall t k, In (t, k) ts -> t < next_tid s) by (intros t k H; apply Ht with k; apply Hts; exact H).
+    destruct (isnil _); cbn [fst cg tasks next_tid]; unf_set; red_g.
+    + split; [eapply Kinv_same; [| | |exact K]; assumption|].
+      destruct (idx g1 u) as [|c1 r1].
+      * split; [exact Hnd|]. split; [intros t k H; apply Hlt in H; lia|]. apply Hfr; reflexivity.
+      * destruct (pick_next hint (c1 :: r1)) as [ch r]. split; [apply nd_snoc; assumption|]. split.
+        -- intros t k H. apply in_app_or in H. destruct H as [H|[H|[]]]; [apply Hlt in H; lia|injection H as <- _; lia].
+        -- intros t k H. apply in_app_or in H. destruct H as [H|[H|[]]]; [apply Hfr; [reflexivity..|exact H]|]. injection H as <- <-. cbn [t_pc].
+           split; [exact I|]. split; [intros o X; discriminate X|intros ? ? ? ? ? X; discriminate X].
+    + split; [eapply Kinv_same; [| | |exact K]; assumption|]. split; [exact Hnd|]. split; [exact Hlt|]. apply Hfr; reflexivity.
+  - destruct (tlookup t (tasks s)) as [k|] eqn:Hl; [|exact HL]. apply tlookup_In in Hl.
+    destruct (t_conn k); [|exact HL]. cbn [fst cg tasks next_tid].
+    destruct (release_frame (cg s) k) as (Ho&_&_&_). destruct (release_frame2 (cg s) k) as (Hno&Hc).
+    split; [eapply Kinv_same; [| | |exact K]; assumption|]. split; [unfold tremove; apply nd_map_filter; exact Hn|]. split.
+    + intros t' k' H. apply In_tremove_nd in H. apply Ht with k'. apply H.
+    + intros t' k' H. apply In_tremove_nd in H. destruct H as [H Hne]. cbn [fst] in Hne.
+      eapply tk_frame; [apply Hk; exact H|rewrite Hno; lia|]. intros o _ Hwo. split; [rewrite Ho; reflexivity|].
+      apply release_wl. intro Hh. destruct (Hk t k Hl) as (_&Q2&_). rewrite (Q2 o Hh) in Hwo. congruence.
+Qed.
+
+Lemma linv_reach cf es : LInv (cstate_after cf es).
+Proof.
+  unfold cstate_after. apply (crun_inv cf LInv).
+  - intros s e. apply linv_cstep.
+  - split; [split; cbn; [intros; reflexivity|intros ch o H; discriminate H]|]. split; [constructor|]. split; intros t k [].
+Qed.
+
+(* ---------- C18: an acknowledged JOIN was announced ---------- *)
+Definition jack_ok (g : gst) (tc : option conn) (g' : gst) (os : list cout) (x : cout) : Prop :=
+  match x with
+  | OAck c _ k =>
+      if k =? A_JOIN then
+        tc = Some c /\ exists ch o n cr, In n (members (objs g' o)) /\
+          forall u c', In u (members (objs g' o)) -> In c' (reg g u) -> c' <> c -> In (OEvent c' K_JOINED ch n cr) os
+      else True
+  | _ => True
+  end.
+
+Lemma no_ack_jack g tc g' os x : no_ack A_JOIN x -> jack_ok g tc g' os x.
+Proof. destruct x; cbn [no_ack jack_ok]; try (intros; exact I). destruct (kind =? A_JOIN); [contradiction|auto]. Qed.
+
+Lemma nbj g tc g' os l : Forall (no_ack A_JOIN) l -> Forall (jack_ok g tc g' os) l.
+Proof. intro Hl. eapply Forall_impl; [intros x Hx; apply no_ack_jack; exact Hx|exact Hl]. Qed.
+
+Section JoinAck.
+  Variable cf : ccfg.
+  Variables (t : tid) (tc : option conn) (me : user).
+
+  Lemma jack_join_finish g0 g ch o cr n id : reg g = reg g0 -> In n (members (objs g o)) ->
+    Forall (jack_ok g0 tc (fst (fst (join_finish cf tc g ch o cr n id true))) (snd (join_finish cf tc g ch o cr n id true)))
+           (snd (join_finish cf tc g ch o cr n id true)).
+  Proof.
+    intros Hr Hin. unfold join_finish. cbv beta iota zeta. cbn [fst snd].
+    assert (Ho : objs (unlock (if idx_early cf then g else idx_add g n ch) o) = objs g) by (destruct (idx_early cf); reflexivity).
+    apply Forall_app. split; [unfold events; outs idtac|]. destruct tc as [c|]; [|constructor]. constructor; [|constructor].
+    cbn [jack_ok]. change (A_JOIN =? A_JOIN) with true. cbv iota. split; [reflexivity|]. exists ch, o, n, cr. rewrite Ho.
+    split; [exact Hin|]. intros u c' Hu Hc Hn. apply in_or_app. left. unfold events. apply in_map_iff. exists c'. split; [reflexivity|].
+    eapply In_conns_of; [exact Hu|rewrite Hr; exact Hc|exact Hn].
+  Qed.
+
+  Lemma jack_join_locked g0 g ch o cr ob id : reg g = reg g0 ->
+    Forall (jack_ok g0 tc (fst (fst (join_locked cf t tc me g ch o cr ob id))) (snd (join_locked cf t tc me g ch o cr ob id)))
+           (snd (join_locked cf t tc me g ch o cr ob id)).
+  Proof.
+    intro Hr. unfold join_locked. cbv beta iota zeta. repeat hd1;
+      first [ apply jack_join_finish; [rest_split; exact Hr|rest_split; unf_set; red_g; rewrite upd_same; red_g; apply In_add_self]
+            | apply nbj; outs idtac ].
+  Qed.
+
+  Lemma jack_seg g p ok hint :
+    (forall ch o cr n id, p = PJoinNotify ch o cr n id -> In n (members (objs g o))) ->
+    Forall (jack_ok g tc (fst (fst (seg cf t tc me g p ok hint))) (snd (seg cf t tc me g p ok hint))) (snd (seg cf t tc me g p ok hint)).
+  Proof.
+    intro Hj.
+    destruct p as [[]| | | | | | | | | | |]; cbn [seg];
+      try solve [apply nbj; repeat hd1;
+                 unfold leave_start, leave_locked, leave_after_n1, leave_after_n2, leave_end, members_read,
+                        set_acl_locked, get_acl_read, bcast_lookup, bcast_read; cbv beta iota zeta; repeat hd1; outs ltac:(unfold events)].
+    - unfold join_start. destruct (cmap g ch) as [o|].
+      + destruct (lock_free g o); [apply jack_join_locked; reflexivity|apply nbj; outs idtac].
+      + cbv zeta. apply jack_join_locked. reflexivity.
+    - destruct (lock_free g o); [apply jack_join_locked; reflexivity|apply nbj; outs idtac].
+    - destruct ok; [apply jack_join_finish; [reflexivity|eapply Hj; reflexivity]|].
+      apply nbj. unfold join_finish. cbv beta iota zeta. outs idtac.
+  Qed.
+End JoinAck.
+
+(* C18 under interleaving: an acknowledged JOIN was announced, in that same atomic step, to every connection registered for
+   every member of the channel object (the new member's own other connections included), the requesting connection
+   excepted, with the joined user's name and the "created" flag *)
+Theorem conc_join_announced cf es t ok hint c id :
+  let s := cstate_after cf es in
+  let r := cstep cf s (ERun t ok hint) in
+  In (OAck c id A_JOIN) (snd r) ->
+  exists k ch o n created, In (t, k) (tasks s) /\ t_conn k = Some c /\
+    In n (members (objs (cg (fst r)) o)) /\
+    forall u c', In u (members (objs (cg (fst r)) o)) -> In c' (reg (cg s) u) -> c' <> c ->
+      In (OEvent c' K_JOINED ch n created) (snd r).
+Proof.
+  intros s. cbv zeta. destruct (linv_reach cf es) as (_&_&_&Hk). fold s in Hk. unfold cstep. cbv zeta.
+  destruct (tlookup t (tasks s)) as [k|] eqn:Hl; [|intros []]. apply tlookup_In in Hl. destruct (Hk t k Hl) as (_&_&P3).
+  pose proof (jack_seg cf t (t_conn k) (t_me k) (cg s) (t_pc k) ok hint P3) as Hs.
+  destruct (seg cf t (t_conn k) (t_me k) (cg s) (t_pc k) ok hint) as [[g' p] os]. cbn [fst snd cg] in *. intro H.
+  rewrite Forall_forall in Hs. apply Hs in H. cbn [jack_ok] in H. change (A_JOIN =? A_JOIN) with true in H. cbv iota in H.
+  destruct H as (Hc & ch & o & n & cr & Hn & Hall). exists k, ch, o, n, cr. auto.
+Qed.
+
+(* ---------- a refused JOIN changes nothing ---------- *)
+Lemma app_last_single {A} (l : list A) a b : l ++ [a] = [b] -> l = [] /\ a = b.
+Proof.
+  destruct l as [|x r]; cbn [app]; intro H; [injection H as ->; auto|]. injection H as _ H. exfalso.
+  destruct r; discriminate H.
+Qed.
+
+Ltac sil_leaf :=
+  let H := fresh "H" in
+  intro H; first [ reflexivity
+                 | exfalso; destruct H as [H|H];
+                   first [ discriminate H | apply app_last_single in H; destruct H as [_ H]; discriminate H ] ].
+
+Section Silent.
+  Variable cf : ccfg.
+  Variables (t : tid) (me : user).
+
+  Lemma sil_existing g ch o ob id c reason :
+    snd (join_locked cf t (Some c) me g ch o false ob id) = [OErr c id reason] \/
+    snd (join_locked cf t (Some c) me g ch o false ob id) = [OClose c reason] ->
+    fst (fst (join_locked cf t (Some c) me g ch o false ob id)) = g.
+  Proof. unfold join_locked, join_finish, err_out. cbv beta iota zeta. repeat hd1; sil_leaf. Qed.
+
+  Lemma sil_created g ch o ob id c reason : cmap g ch = Some o ->
+    snd (join_locked cf t (Some c) me g ch o true ob id) = [OErr c id reason] \/
+    snd (join_locked cf t (Some c) me g ch o true ob id) = [OClose c reason] ->
+    fst (fst (join_locked cf t (Some c) me g ch o true ob id)) = unmap g ch.
+  Proof.
+    intro Hc. unfold join_locked, join_finish, err_out. rewrite Hc, N.eqb_refl.
+    replace (if ptr_check cf then true else true) with true by (destruct (ptr_check cf); reflexivity).
+    cbv beta iota zeta. cbn [negb]. cbv iota. repeat hd1; sil_leaf.
+  Qed.
+End Silent.
+
+(* a request that is refused (its segment ends with an error for the requester and nothing else) announces nothing and
+   changes nothing: JOIN refusals of every kind *)
+Theorem conc_refused_join_is_silent cf es t ok hint c id reason k :
+  let s := cstate_after cf es in
+  let r := cstep cf s (ERun t ok hint) in
+  tlookup t (tasks s) = Some k -> t_conn k = Some c ->
+  (exists ch ob, t_pc k = PStart (RJoin ch ob id)) \/ (exists ch o ob, t_pc k = PJoinWait ch o ob id) ->
+  snd r = [OErr c id reason] \/ snd r = [OClose c reason] ->
+  (forall o', members (objs (cg (fst r)) o') = members (objs (cg s) o')) /\
+  (forall u, idx (cg (fst r)) u = idx (cg s) u) /\
+  (forall ch', cmap (cg (fst r)) ch' = cmap (cg s) ch').
+Proof.
+  intros s. cbv zeta. destruct (linv_reach cf es) as ((K1&_)&_). fold s in K1. intros Hl Hc Hp. unfold cstep. cbv zeta.
+  rewrite Hl, Hc.
+  assert (Hsame : forall x : step_res, (snd x = [OErr c id reason] \/ snd x = [OClose c reason] -> fst (fst x) = cg s) ->
+            snd (let '(g', p, os) := x in ({| cg := g'; tasks := settle t k p hint (tasks s); next_tid := next_tid s |}, os)) = [OErr c id reason] \/
+            snd (let '(g', p, os) := x in ({| cg := g'; tasks := settle t k p hint (tasks s); next_tid := next_tid s |}, os)) = [OClose c reason] ->
+            (forall o', members (objs (cg (fst (let '(g', p, os) := x in ({| cg := g'; tasks := settle t k p hint (tasks s); next_tid := next_tid s |}, os)))) o') = members (objs (cg s) o')) /\
+            (forall u, idx (cg (fst (let '(g', p, os) := x in ({| cg := g'; tasks := settle t k p hint (tasks s); next_tid := next_tid s |}, os)))) u = idx (cg s) u) /\
+            (forall ch', cmap (cg (fst (let '(g', p, os) := x in ({| cg := g'; tasks := settle t k p hint (tasks s); next_tid := next_tid s |}, os)))) ch' = cmap (cg s) ch')).
+  { intros [[g' p] os] Hx Ho. cbn [fst snd cg] in *. rewrite (Hx Ho). auto. }
+  destruct Hp as [(ch&ob&->)|(ch&o&ob&->)]; cbn [seg].
+  - unfold join_start. destruct (cmap (cg s) ch) as [o|] eqn:Hm.
+    + destruct (lock_free (cg s) o); [apply Hsame; apply sil_existing|]. cbn [fst snd]. intros [H|H]; discriminate H.
+    + cbv zeta. match goal with |- context [join_locked cf t (Some c) (t_me k) ?g1 _ _ _ _ _] => set (G1 := g1) end.
+      assert (Hm1 : cmap G1 ch = Some (next_oid (cg s))) by (subst G1; unf_set; red_g; apply upd_same).
+      pose proof (sil_created cf t (t_me k) G1 ch (next_oid (cg s)) ob id c reason Hm1) as Hx.
+      destruct (join_locked cf t (Some c) (t_me k) G1 ch (next_oid (cg s)) true ob id) as [[g' p] os]. cbn [fst snd cg] in *.
+      intro Ho. rewrite (Hx Ho). subst G1. unf_set. red_g. split; [|split; [reflexivity|]].
+      * intro o'. unfold upd. destruct (N.eqb_spec o' (next_oid (cg s))) as [->|Hne]; [|reflexivity].
+        red_g. symmetry. apply K1. lia.
+      * intro ch'. unfold upd. destruct (N.eqb_spec ch' ch) as [->|Hne]; [symmetry; exact Hm|reflexivity].
+  - destruct (lock_free (cg s) o); [apply Hsame; apply sil_existing|]. cbn [fst snd]. intros [H|H]; discriminate H.
+Qed.
